@@ -26,6 +26,8 @@ def check(chk, repo):
     nz = check_zero_self(rep, M)
     nf = check_definedness(rep, M)
     nv = check_value_axioms(rep, M)
+    from ..rules_metrics import check_shift_wrapper
+    check_shift_wrapper(rep, M)
     chk.note("instances", {"symmetric": ns, "zero_self": nz, "definedness_obligations": nf, "value_axioms": nv})
     chk.floor("symmetry claims checked", ns, 40)
     chk.floor("definedness obligations", nf, 60)
